@@ -96,3 +96,12 @@ func init() {
 		return tuple{int64(0), iface{}}
 	}
 }
+
+func init() {
+	// context.WithValue without the reflective comparability check.
+	symExternals["context.WithValue"] = func(fr *frame, args []value) value {
+		vt := fr.i.prog.ImportedPackage("context").Type("valueCtx").Type()
+		cell := value(structure{args[0], args[1], args[2]})
+		return iface{t: types.NewPointer(vt), v: &cell}
+	}
+}
